@@ -79,7 +79,8 @@ pub fn z80r(s: &SzxState) -> Vec<u8> {
     d.push(r.iff2 as u8);
     d.push(r.im);
     d.extend_from_slice(&s.cycles.to_le_bytes());
-    d.push(0); // chHoldIntReqCycles
+    // chHoldIntReqCycles: how long the writing emulator holds INT; informational (the frame position is dwCyclesStart)
+    d.push(if s.cycles % 3 == 0 { 0 } else { (s.cycles % 37) as u8 });
     d.push((s.ei_last as u8) | ((s.halted as u8) << 1) | ((s.f_set as u8) << 2));
     d.extend_from_slice(&s.memptr.to_le_bytes());
     d
